@@ -418,3 +418,29 @@ Example C05_tr_overflow_without_guard :
     (GenCFuncs.cglobals ++ [CLite.cstr_block (repeat 49%Z (excap - 1)); repeat CLite.VUndef excap])
     = CLite.Ok (CLite.VPtr G (EXLEN - 1)%Z, m').
 Proof. cbv zeta. split; [vm_compute; reflexivity|]. eexists. vm_compute. reflexivity. Qed.
+
+(* ex_plus(arg, pls) of ec_edit (":e +cmd file"), same technique: for every argument string shorter than
+   EXLEN and pls[EXLEN] the translated C text returns Ok -- no load past the terminator, no store outside
+   pls -- at the model's position; pls holds the bytes of the model behind the terminator that the C text
+   stores at pls[0] before it looks for the '+' (which the model only checks room for) *)
+Theorem C05_tr_ex_plus : forall (m : CLite.mem) bs bd s (blk : CLite.block) i d fuel,
+  CLiteProps.str_at m bs s -> CLiteProps.bytes_lt256 s ->
+  nth_error m bd = Some blk -> Z.of_nat (length blk) = EXLEN -> bs <> bd ->
+  (Z.of_nat (length s) < EXLEN)%Z -> (i <= length s)%nat -> (S (length s) <= fuel)%nat ->
+  exists i' w, ex_plus s i (newbuf excap) = Ok (i', w) /\
+    CLite.callf GenCFuncs.cprog fuel (S d) GenCFuncs.F_ex_plus [CLite.VPtr bs (Z.of_nat i); CLite.VPtr bd 0%Z] m
+    = CLite.Ok (CLite.VPtr bs (Z.of_nat i'),
+                CLiteProps.upd m bd (TrEx.dblock w (CLiteProps.upd blk 0 (CLite.VInt 0)))) /\
+    (i <= i')%nat /\ (i' <= length s)%nat /\ (wlen w <= i' - i + 1)%nat /\ (wlen w <= length blk)%nat.
+Proof. exact TrEx.ex_plus_safe. Qed.
+Print Assumptions C05_tr_ex_plus.
+
+(* it runs: ` +/x\ y f` gives pls = "+/x y" (the backslash dropped) and stops at "f" *)
+Example C05_tr_plus_runs :
+  let arg := [32; 43; 47; 120; 92; 32; 121; 32; 102]%N in
+  let G := length GenCFuncs.cglobals in
+  let m0 := GenCFuncs.cglobals ++ [CLite.cstr_block (CLiteProps.zb arg); repeat CLite.VUndef excap] in
+  match CLite.callf GenCFuncs.cprog 100 1 GenCFuncs.F_ex_plus [CLite.VPtr G 0%Z; CLite.VPtr (G + 1) 0%Z] m0 with
+  | CLite.Ok (CLite.VPtr _ o, m1) => o = 8%Z /\ TrEx.str_of m1 (G + 1) = [43; 47; 120; 32; 121]%Z
+  | _ => False end.
+Proof. vm_compute. split; reflexivity. Qed.
